@@ -2,7 +2,9 @@
 package c09
 
 import (
+	"encoding/json"
 	"fmt"
+	"os"
 	"sort"
 	"strings"
 	"sync"
@@ -796,7 +798,12 @@ func TestC09(t *testing.T) {
 				faultRuns++
 				run.Eval(1)
 				run.Inflight(fc)
+				t0 := time.Now()
 				fv, _ := runCase(fc)
+				if d := time.Since(t0); d > 500*time.Millisecond && os.Getenv("VERIF_SLOWLOG") != "" {
+					b, _ := json.Marshal(fc)
+					fmt.Printf("SLOW %v %s\n", d, b)
+				}
 				run.ClearInflight()
 				run.NonTrivialJSON(fc)
 				if fv != nil {
